@@ -19,13 +19,14 @@ import (
 // Faults are per-request probabilities in percent, drawn deterministically from
 // (seed, request kind, height, how many times this height was asked before).
 type Faults struct {
-	ErrPct      int `json:"err_pct"`       // BlockByNumber / BlockHeaderLatest fails
-	DelayPct    int `json:"delay_pct"`     // answer computed, then held back for a while
-	MaxDelayUs  int `json:"max_delay_us"`  //
-	CorruptPct  int `json:"corrupt_pct"`   // a committed field is changed, the hash kept
-	WrongNumPct int `json:"wrong_num_pct"` // a valid block of another height is served
-	StalePct    int `json:"stale_pct"`     // latest: an older header of the CURRENT chain
-	Budget      int `json:"budget"`        // at most this many faulty answers per (kind, height); then honest
+	ErrPct      int `json:"err_pct"`                 // BlockByNumber / BlockHeaderLatest fails
+	DelayPct    int `json:"delay_pct"`               // answer computed, then held back for a while
+	MaxDelayUs  int `json:"max_delay_us"`            //
+	CorruptPct  int `json:"corrupt_pct"`             // a committed field is changed, the hash kept
+	WrongNumPct int `json:"wrong_num_pct"`           // a valid block of another height is served
+	StalePct    int `json:"stale_pct"`               // latest: an older header of the CURRENT chain
+	ClassErrPct int `json:"class_err_pct,omitempty"` // (feeder-gateway data source) a class fetch fails
+	Budget      int `json:"budget"`                  // at most this many faulty answers per (kind, height); then honest
 	// Rules script particular interleavings (directed scenarios): applied before the random faults.
 	Rules []Rule `json:"rules,omitempty"`
 }
@@ -120,6 +121,12 @@ func (s *source) advance() {
 		s.rec.add(entry{Kind: eEpoch, Epoch: s.epoch})
 		s.honestLatest.Store(0)
 	}
+}
+
+func (s *source) requests() uint64 {
+	s.mu.Lock()
+	defer s.mu.Unlock()
+	return s.reqs
 }
 
 // stable: the last epoch is active (no further reorg will happen).
